@@ -46,6 +46,25 @@ for scales in ([1.0, 1.0], [1.0, 1e3], [1e-3, 1e3], [1e3, 1e-3, 1.0]):
       if e > 1e-3:
         add("tearfree.shampoo", [scales, t, k], f"block {k} of the blocked tensor differs from the block optimized alone by relative {e:.3g}")
 
+# two blocked axes separated by a small axis: (2B, 3, 2B) -> 4 blocks of (B, 3, B)
+for scales in ([1.0, 1.0, 1.0, 1.0], [1.0, 1e3, 1e-3, 30.0]):
+  cases += 1
+  tx = tsh.apply(tsh.Options(block_size=B, second_moment_decay=1.0))
+  p = jnp.zeros((2 * B, 3, 2 * B))
+  st = tx.init(p)
+  sts = [tx.init(jnp.zeros((B, 3, B))) for _ in range(4)]
+  for t in range(2):
+    blocks = [(rng.randn(B, 3, B) * s).astype(np.float32) for s in scales]
+    g = np.concatenate([np.concatenate(blocks[0:2], 2), np.concatenate(blocks[2:4], 2)], 0)
+    u, st = tx.update(jnp.asarray(g), st, p)
+    u = np.asarray(u, np.float64)
+    for k in range(4):
+      uk, sts[k] = tx.update(jnp.asarray(blocks[k]), sts[k], jnp.zeros((B, 3, B)))
+      bi, bj = divmod(k, 2)
+      e = rel(u[bi * B:(bi + 1) * B, :, bj * B:(bj + 1) * B], np.asarray(uk, np.float64))
+      if e > 1e-3:
+        add("tearfree.shampoo", ["(2B,3,2B)", scales, t, k], f"block {k} of the blocked tensor differs from the block optimized alone by relative {e:.3g}")
+
 for scales in ([1.0, 1.0], [1e-3, 1e3]):
   cases += 1
   kw = dict(block_size=B, graft_type=ds.GraftingType.NONE, start_preconditioning_step=0, beta1=0.0, nesterov=False,
@@ -75,4 +94,4 @@ for scales in ([1.0, 1.0], [1e-3, 1e3]):
         add("distributed_shampoo", [scales, t, k], f"block {k} differs from the block optimized alone by relative {e:.3g}")
 
 print(json.dumps({"cases": cases, "violations": viol,
-                  "bound": f"tier={tier}: Tearfree Shampoo 4 scale patterns (2-3 blocks), DS 2 scale patterns + companion leaves, 3 steps, seed {seed}"}))
+                  "bound": f"tier={tier}: Tearfree Shampoo 4 scale patterns (2-3 blocks) + 2 patterns on a (2B,3,2B) tensor, DS 2 scale patterns + companion leaves, 3 steps, seed {seed}"}))
